@@ -48,3 +48,12 @@ VARIANTS += [
  dict(id='c08-p6ref5-enum-state-point-on-pending', prop='C08', base='P6-REF5', expect='C08', file='scared/analysis/base.py',
       old="        if self._register_processed_batch() is _Convergence.POINT_REACHED:\n", new="        if self._register_processed_batch() is not _Convergence.DISABLED:\n", allow_undecided=True),
 ]
+
+VARIANTS += [
+ dict(id='c08-compute-normalises-in-the-accumulator', prop='C08', expect='C08-D5', file='scared/distinguishers/cpa.py',
+      old="            tmp_result = (xy - (self.ex * (y / self.processed_traces))) / (common_1 * com_2)\n",
+      new="            tmp_result = xy.astype('float64', copy=False)\n            tmp_result -= self.ex * (y / self.processed_traces)\n            tmp_result /= common_1 * com_2\n"),
+ dict(id='c08-silent-compute-normalises-in-a-copy', prop='C08', kind='silent', file='scared/distinguishers/cpa.py',
+      old="            tmp_result = (xy - (self.ex * (y / self.processed_traces))) / (common_1 * com_2)\n",
+      new="            tmp_result = xy.astype('float64')\n            tmp_result -= self.ex * (y / self.processed_traces)\n            tmp_result /= common_1 * com_2\n"),
+]
